@@ -58,3 +58,54 @@ Theorem grid_positive_increasing a d i : 0 < d -> 0 < exp (a + INR i * d) /\ exp
 Proof.
   intros Hd. split; [apply exp_pos|]. apply exp_increasing. rewrite S_INR. nra.
 Qed.
+
+(* ---- acceptance of a data object: the cut is that of the longest wavelength, so every accepted q
+        lies inside the acceptance 2 pi / lam_k * sin(theta_max) of EVERY wavelength of the set ---- *)
+Lemma maxL_fold_ge (l : list R) : forall a, a <= fold_left (fun a x => if ltb ROps a x then x else a) l a /\
+  Forall (fun x => x <= fold_left (fun a x => if ltb ROps a x then x else a) l a) l.
+Proof.
+  induction l as [|x l IH]; intros a; cbn [fold_left]; [split; [lra|constructor]|].
+  destruct (ltb ROps a x) eqn:E; cbn [ltb ROps] in E.
+  - apply Rltb_true in E. destruct (IH x) as [H1 H2]. split; [lra|]. constructor; auto.
+  - apply Rltb_false in E. destruct (IH a) as [H1 H2]. split; [lra|]. constructor; [lra|auto].
+Qed.
+Lemma maxL_ge (l : list R) x : In x l -> x <= maxL ROps l.
+Proof.
+  destruct l as [|a l]; [intros []|]. unfold maxL. cbn [hd tl].
+  destruct (maxL_fold_ge l a) as [H1 H2]. intros [<-|Hin]; [exact H1|].
+  rewrite Forall_forall in H2. apply H2; auto.
+Qed.
+Lemma maxL_in (l : list R) : l <> [] -> In (maxL ROps l) l.
+Proof.
+  destruct l as [|a l]; [congruence|intros _]. unfold maxL. cbn [hd tl].
+  revert a. induction l as [|x l IH]; intros a; cbn [fold_left]; [left; reflexivity|].
+  destruct (ltb ROps a x).
+  - destruct (IH x) as [H|H]; [right; left; exact H|right; right; exact H].
+  - destruct (IH a) as [H|H]; [left; exact H|right; right; exact H].
+Qed.
+
+Theorem zaccept_most_restrictive twopi lams s lam : 0 < twopi -> 0 <= s ->
+  Forall (fun x => 0 < x) lams -> In lam lams ->
+  make_zaccept ROps twopi lams s <= twopi / lam * s.
+Proof.
+  intros Ht Hs Hpos Hin. unfold make_zaccept. cbn [div mul ROps].
+  assert (Hl : 0 < lam) by (rewrite Forall_forall in Hpos; auto).
+  assert (Hm : lam <= maxL ROps lams) by (apply maxL_ge; auto).
+  assert (Hmp : 0 < maxL ROps lams) by lra.
+  apply Rmult_le_compat_r; [exact Hs|].
+  unfold Rdiv. apply Rmult_le_compat_l; [lra|]. apply Rinv_le_contravar; lra.
+Qed.
+
+(* ... and it is attained: it IS the acceptance of one of the wavelengths of the set *)
+Theorem zaccept_attained twopi lams s : lams <> [] ->
+  exists lam, In lam lams /\ make_zaccept ROps twopi lams s = twopi / lam * s.
+Proof. intros H. exists (maxL ROps lams). split; [apply maxL_in; auto|reflexivity]. Qed.
+
+Theorem accepted_inside_every_acceptance twopi lams s q lamj lam : 0 < twopi -> 0 <= s ->
+  Forall (fun x => 0 < x) lams -> In lam lams ->
+  accepted ROps twopi q lamj (make_zaccept ROps twopi lams s) = true -> q <= twopi / lam * s.
+Proof.
+  intros Ht Hs Hpos Hin Ha. unfold accepted in Ha. apply andb_prop in Ha. destruct Ha as [_ Ha].
+  cbn [leb ROps] in Ha. apply Rleb_true in Ha.
+  eapply Rle_trans; [exact Ha|]. apply zaccept_most_restrictive; auto.
+Qed.
